@@ -313,6 +313,10 @@ class LanguageAccept(Accept):
         if result is not None:
             return result
 
+        # An exact match with no quality is a refusal, it must not be
+        # overridden by a partial match.
+        matches = [item for item in matches if item not in self]
+
         # Fall back to accepting primary tags. If a client accepts
         # "en-US", "en" is a valid match at this point. Need to use
         # re.split to account for 2 or 3 letter codes.
